@@ -10,6 +10,7 @@ HARNESS = 'c16'
 COQ_IMPORTS = 'From VRP Require Import Base.Tac Model.Routing.'
 MODEL_TARGETS = ['theories/Model/Routing.vo']
 SIZES = {'quick': 1400, 'thorough': 20000, 'search': 6000}
+SUBSTREAMS = ['c16_doc']           # documents -> read_pragmatic -> provider answers, approximation, binary search (tools/props/c16_doc.py)
 RULE = ('cases: (core) matrix sets for create_matrix_transport_cost[_with_fallback]: 1-4 locations, 1-3 profiles in permuted '
         'order, all-distinct asymmetric integer entries, time-aware sets with 2-4 unsorted matrices per profile (integer or '
         'common-fraction timestamps, gaps 2^a*b), queries on every clause boundary (at / before / after / strictly between / '
@@ -22,10 +23,14 @@ RULE = ('cases: (core) matrix sets for create_matrix_transport_cost[_with_fallba
         'or a rejected malformed set.')
 TRUSTED = ['f64 arithmetic is exact on the generated data (integers < 2^31, dyadic scales/timestamps, interpolation ratios '
            'with power-of-two denominators); validated on every run by exact comparison with the rational model',
-           'slice::binary_search is modelled by its documented contract on strictly increasing slices; sets with equal '
-           'truncated timestamps inside a profile are only compared on acceptance',
-           'haversine trigonometry is not modelled: symmetry / zero diagonal of the approximation is proved relative to an '
-           'abstract symmetric distance function and checked on the implementation output']
+           'slice::binary_search: the provider model uses the contract on strictly increasing slices; the loop of '
+           'core::slice::binary_search_by (rust >= 1.82) is modelled too (std_bsearch), proved equal to the contract on every '
+           'strictly increasing list (C16_binary_search_refines) and compared with the real slice::binary_search on every run '
+           '(sub-stream c16_doc, op bs); sets with equal truncated timestamps inside a profile are only compared on acceptance',
+           'haversine trigonometry (libm sin / cos / atan2) is not modelled: the approximation is proved relative to an '
+           'abstract distance function (symmetric, zero on equal points); the real function is NOT exactly symmetric in '
+           'binary64 (finding C16-F6); its raw values are recovered through the public API and everything after them '
+           '(rounding, division by the speed, per-profile matrices, provider answers) is compared exactly']
 ASSUMPTIONS = ['times and timestamps are below 2^53 and u64 saturation of `as u64` is only reached at 0',
                'HashMap grouping keeps per-key insertion order (collect_group_by pushes in iteration order)']
 
@@ -940,7 +945,21 @@ MANIFEST_TEXT = ('Machine-checked proof (Coq, no axioms) over an executable rati
                  'coordinate approximations are symmetric with zero diagonal relative to a symmetric distance function. One deviation of '
                  'the real code from the statement is recorded as a finding with a Coq witness (fractional '
                  'query time truncated to the matrix second). The model is tied to /repo on every run by evaluating it in Coq on the '
-                 'generated cases and comparing exactly with the providers built through the public constructors.')
+                 'generated cases and comparing exactly with the providers built through the public constructors. '
+                 'Second part (Model/RoutingDoc.v, sub-stream c16_doc): the whole path from pragmatic documents to answers - routing '
+                 'validation E1500..E1505, get_profile_index_map, create_transport_costs with errorCodes, read_fleet profiles, both '
+                 'TravelTime variants, the custom location, create_approx_matrices / get_approx_transportation over an abstract '
+                 'distance function - with theorems: every vehicle of an accepted document is answered from THE matrix named like '
+                 'its profile (or at its position), durations times its own scale; flagged entries are negative (untimed, and timed '
+                 'when both bracketing matrices flag); the four time-dependent clauses on documents; consistent documents (spelled '
+                 'out) are accepted and accepted documents are consistent when code/travelTimes lengths fit and matrix names are '
+                 'fleet profiles; consistent core sets are accepted (rejection exactly when inconsistent); the provider is invariant '
+                 'under permutation of the supplied matrices; the real binary-search loop refines the contract model on every '
+                 'strictly increasing list; approximated matrices are round(hav) / round(hav / speed of the profile), symmetric with '
+                 'zero diagonal for an exactly symmetric hav. Four further deviations of the real code are recorded as findings with '
+                 'Coq witnesses (unknown matrix name attached by position, errorCodes path skipping the length checks, unreachable '
+                 'marker interpolated to a non-negative duration, last-bit asymmetry of the haversine function surfacing in the '
+                 'rounded matrix).')
 MANIFEST_NOTE = ('Trusted: Coq kernel + vm_compute; harness, generators, comparison; exactness of f64 on the generated dyadic data '
                  '(validated by the exact comparison); binary_search contract; haversine trigonometry not modelled.')
 MANIFEST_TECHNIQUE = 'Coq proof over executable model + vm_compute differential correspondence with the Rust implementation'
